@@ -730,6 +730,32 @@ class ValidSweep(Suite):
     confirm_hang = staticmethod(_confirm(lambda c: run_valid(c, TRANSPORTS), _budget_small))
 
 
+class CharsetEnum(Suite):
+    """Text decoding options, exhaustively (720 cases x 4 transports): part Content-Type absent / text/plain with no,
+    a valid, another valid and an unknown charset / a non-text type; contents that are ASCII, UTF-8 that reads
+    differently as Latin-1, not UTF-8, empty; MultipartParseOptions.default_charset unset, iso-8859-1, ascii, utf-16,
+    an unknown name; read with get_text and get_data; the part alone, first and last.  The text must be the content
+    decoded with the part's charset, else the configured default, else UTF-8 (MultipartParseError when that fails),
+    identically on the WSGI and ASGI parsers."""
+
+    name = 'charset_enum'
+    exhaustive = True
+    budget = {'quick': 1, 'thorough': 1}
+    case_timeout = 20
+
+    def cases(self, tier):
+        return G.charset_cases(tier)
+
+    def run(self, case):
+        info = run_valid(case, TRANSPORTS)
+        me = [p for p in case['form']['parts'] if p['name'] == 't'][0]
+        content = G.part_content(me)
+        nontrivial = bool(case.get('default_charset')) and not (me.get('ctype') or [None, None])[1] and not content.isascii()
+        return Info(nontrivial, info.labels + ('charset_param:%s' % ((me.get('ctype') or [None, None])[1]),))
+
+    confirm_hang = staticmethod(_confirm(lambda c: run_valid(c, TRANSPORTS), _budget_small))
+
+
 # ------------------------------------------------------------------ limits
 
 
@@ -1009,7 +1035,7 @@ class HeaderParam(Suite):
     confirm_hang = staticmethod(_confirm(run_header_param, lambda c: 2_000_000))
 
 
-SUITES = [Valid(), ValidBig(), ValidSweep(), Limits(), Corrupt(), CorruptEnum(), HeaderParam()]
+SUITES = [Valid(), ValidBig(), ValidSweep(), CharsetEnum(), Limits(), Corrupt(), CorruptEnum(), HeaderParam()]
 
 
 def _known_f13(suite_name, case, violation):
